@@ -474,6 +474,20 @@ def main(tier: str, replay: str | None) -> None:
                 rb = real() if any(s[0] == "evict" for s in h) else False
                 recs.append(run_item(dec, h, {"A": g1.frame, "B": fb, "C": fc}, [], rb))
                 n_rel += 1
+        # seqn siblings: A; C = the very same frame under another sequence number (numeric vs ---): whatever a
+        # parser memoises per payload must not carry one frame's sequence number into the other's result
+        n_sq = 0
+        for (code, verb), gs in sorted(by_vc.items()):
+            for g1 in gs[: 2 if tier == "quick" else 6]:
+                f1 = gen.frame_fields(g1.frame)
+                sib = gen.make_frame(verb, f1[2], f1[3], f1[4], code, g1.payload, "045" if f1[1] == "---" else "---")
+                other = rng.choice(gs).frame
+                if len({g1.frame, sib, other}) < 3:
+                    continue
+                hist = (("dec", "A"), ("dec", "C"), ("dec", "A"), ("dec", "B"), ("dec", "C"))
+                recs.append(run_item(dec, hist, {"A": g1.frame, "B": other, "C": sib}, [], False))
+                n_sq += 1
+        src_count["seqn_sibling_triples"] = n_sq
         src_count["related_triples"] = n_rel
         # arrays: the array and each of its elements as packets of their own
         for ci, c in enumerate(cases):
